@@ -2,7 +2,7 @@
     [pickaperm_spec] says the answer is a non-empty set of minimal inputs; here the answer is pinned as a list:
     all requested  -> the inputs of minimal score, in input order, each as many times as it occurs;
     one requested  -> the FIRST input of minimal score, alone. *)
-From Corankco Require Import Prelude Scheme SchemeProof Rank KemenySpec Borda PickAPerm PickAPermProof.
+From Corankco Require Import Prelude Scheme SchemeProof Rank KemenySpec CostTableProof EquivOrder Borda PickAPerm PickAPermProof.
 Local Open Scope Z_scope.
 
 Section Exact.
@@ -113,4 +113,59 @@ Proof.
   - destruct H as [H|H]; [discriminate|]. rewrite H.
     assert (HU : unified_rankings D <> []) by (unfold unified_rankings; destruct D; [contradiction|discriminate]).
     destruct (pickaperm_on_one_exact (kemeny_spec s D) _ HU) as (a & E & F). rewrite E. eauto.
+Qed.
+
+(** * PickAPerm does not depend on which multiple of a scheme it is given
+    two score functions that compare all rankings alike make the scan keep the same rankings at every step *)
+Section SameOrder.
+  Variables (one : bool) (sc1 sc2 : ranking -> Z).
+  Hypothesis same : forall x y, sc1 x <= sc1 y <-> sc2 x <= sc2 y.
+
+  Lemma same_ltb x y : (sc1 x <? sc1 y) = (sc2 x <? sc2 y).
+  Proof.
+    pose proof (same y x) as H. destruct (sc1 x <? sc1 y) eqn:E1, (sc2 x <? sc2 y) eqn:E2; try reflexivity;
+      rewrite ?Z.ltb_lt, ?Z.ltb_ge in *; lia.
+  Qed.
+
+  Lemma same_eqb x y : (sc1 x =? sc1 y) = (sc2 x =? sc2 y).
+  Proof.
+    pose proof (same y x) as H. pose proof (same x y) as H'.
+    destruct (sc1 x =? sc1 y) eqn:E1, (sc2 x =? sc2 y) eqn:E2; try reflexivity;
+      rewrite ?Z.eqb_eq, ?Z.eqb_neq in *; lia.
+  Qed.
+
+  Lemma scan_same R : forall a acc,
+    exists a', pick_scan one sc1 R (Some (sc1 a)) acc = (Some (sc1 a'), snd (pick_scan one sc1 R (Some (sc1 a)) acc)) /\
+               pick_scan one sc2 R (Some (sc2 a)) acc = (Some (sc2 a'), snd (pick_scan one sc1 R (Some (sc1 a)) acc)).
+  Proof.
+    induction R as [|r R IH]; intros a acc; simpl.
+    - exists a. split; reflexivity.
+    - rewrite <- (same_ltb r a), <- (same_eqb r a).
+      destruct (sc1 r <? sc1 a); [apply IH|].
+      destruct ((sc1 r =? sc1 a) && negb one); apply IH.
+  Qed.
+
+  Theorem pickaperm_on_same R :
+    R <> [] -> exists a out, pickaperm_on one sc1 R = (Some (sc1 a), out) /\ pickaperm_on one sc2 R = (Some (sc2 a), out).
+  Proof.
+    intros HR. unfold pickaperm_on. destruct R as [|r R]; [contradiction|]. simpl.
+    destruct (scan_same R r [r]) as (a & E1 & E2). eauto.
+  Qed.
+End SameOrder.
+
+(** two schemes the library calls equivalent: same rankings returned, scores reported for the same ranking *)
+Theorem pickaperm_equivalent_schemes one s1 s2 D :
+  nonneg s1 -> nonneg s2 -> is_equivalent_to s1 s2 = true -> D <> [] ->
+  (is_complete D = true \/ (is_equivalent_to s1 unifying = true /\ is_equivalent_to s2 unifying = true)) ->
+  exists a out, pickaperm one s1 D = Ok (Some (kemeny_spec s1 D a), out) /\
+                pickaperm one s2 D = Ok (Some (kemeny_spec s2 D a), out).
+Proof.
+  intros N1 N2 E HD H. unfold pickaperm.
+  assert (S : forall x y, kemeny_spec s1 D x <= kemeny_spec s1 D y <-> kemeny_spec s2 D x <= kemeny_spec s2 D y)
+    by (intros x y; apply (equivalent_schemes_same_order s1 s2 N1 N2 E D x y)).
+  destruct (is_complete D) eqn:C.
+  - destruct (pickaperm_on_same one _ _ S D HD) as (a & out & E1 & E2). rewrite E1, E2. eauto.
+  - destruct H as [H|[H1 H2]]; [discriminate|]. rewrite H1, H2.
+    assert (HU : unified_rankings D <> []) by (unfold unified_rankings; destruct D; [contradiction|discriminate]).
+    destruct (pickaperm_on_same one _ _ S _ HU) as (a & out & E1 & E2). rewrite E1, E2. eauto.
 Qed.
